@@ -83,6 +83,18 @@ def check_case(c, violations, dist):
             pass
         site = vrun.innermost_cerberus_frame(e)
         sig = "%s@%s" % (name, site)
+        if name == "RecursionError":
+            # the innermost frame of a stack overflow is arbitrary; attribute it: when the model of the documented
+            # semantics diverges on the same case too (out of fuel), it is the recorded finding, otherwise a new one
+            sig = "RecursionError@(stack overflow)"
+            try:
+                import nrun
+                cc = [dict(c)]
+                nrun.run_cases(cc, apis=("normalized",), driver_ok=True)
+                if (cc[0]["spec"].get("normalized") or {}).get("r") == "fuel":
+                    sig = "diverges:defaults-recreate-unknown-mappings"
+            except Exception:
+                pass
         dist["raise_" + sig] += 1
         violations.append({"signature": sig, "what": "%s escaped %s(): %s" % (name, api, str(e)[:120]),
                            "replay": dict(vrun.case_json(c), api=api), "_case": c, "_api": api})
@@ -103,6 +115,11 @@ def run(ctx):
                 if check_case(c, violations, dist):
                     distinct.add(json.dumps(vrun.case_json(c), sort_keys=True))
     matrix = len(distinct)
+    # (1b) directed: an allow_unknown rule set whose sub-schema's default re-creates an unknown mapping (diverges by construction)
+    au = {'type': 'dict', 'schema': {'x': {'default': {'c': {}}}}}
+    for c in ({"schema": {}, "config": {"allow_unknown": au}, "document": {'u': {}}, "update": False},
+              {"schema": {'a': {'type': 'dict', 'allow_unknown': au, 'schema': {}}}, "config": {}, "document": {'a': {'u': {}}}, "update": False}):
+        check_case(c, violations, dist)
     # (2) generated cases with the wrong-shape stream forced
     for kw in ({"p_mismatch": 0.35}, {"p_mismatch": 0.12}, {"normalization": True, "p_mismatch": 0.2},
                {"normalization": True, "nested_bias": True, "max_depth": 4}):
@@ -129,7 +146,7 @@ def run(ctx):
         if v["signature"] in seen:
             continue
         seen.add(v["signature"])
-        if "_case" in v:
+        if "_case" in v and not v["signature"].startswith(("diverges:", "RecursionError@")):
             api, sig = v["_api"], v["signature"]
 
             def still(cand):
